@@ -489,13 +489,14 @@ fn op_distcmd<IntT: for<'a> UInt<'a>>(op: &Value) -> Value {
 pub fn try_load(path: &str, as_bits: u32) -> Value {
     let r = guarded(|| {
         if as_bits == 64 {
-            MergeSkaArray::<u64>::load(path).map(|a| array_proj(&a)).map_err(|e| e.to_string())
+            MergeSkaArray::<u64>::load(path).map(|a| (array_proj(&a), a.verif_counts().to_vec())).map_err(|e| e.to_string())
         } else {
-            MergeSkaArray::<u128>::load(path).map(|a| array_proj(&a)).map_err(|e| e.to_string())
+            MergeSkaArray::<u128>::load(path).map(|a| (array_proj(&a), a.verif_counts().to_vec())).map_err(|e| e.to_string())
         }
     });
     match r {
-        Ok(Ok(p)) => json!({"ok": true, "table": p}),
+        // counts: the stored per-k-mer count column in file order (part of the decoded content)
+        Ok(Ok((p, c))) => json!({"ok": true, "table": p, "counts": c}),
         Ok(Err(e)) => json!({"ok": false, "err": e}),
         Err(m) => json!({"ok": false, "err": format!("panic: {m}")}),
     }
